@@ -138,7 +138,7 @@ pub enum OnError {
     /// give up the point cloud or image the failed call belongs to, go on with the next top-level
     /// call and finalize at the end
     Continue,
-    /// like Stop, but a failed top-level finalize is called a second time
+    /// like Stop, but a failed finalize (of a point cloud or the top-level one) is called a second time
     RetryFinalize,
 }
 
@@ -634,9 +634,21 @@ pub fn exec_program(prog: &Program, ctx: &Ctx, disk: &SimDisk) -> Executed {
                         continue 'calls;
                     }
                     if *end == SubEnd::Finalize {
-                        let from = opno(ctx);
-                        let r = pw.finalize();
-                        if record!(format!("pc[{ci}].finalize"), ci, Expect::MustAccept, from, r) {
+                        let mut from = opno(ctx);
+                        let mut r = pw.finalize();
+                        let mut exp = Expect::MustAccept;
+                        if r.is_err() && prog.on_error == OnError::RetryFinalize {
+                            // the caller repeats the failed call once; whether that may succeed
+                            // is left open, but if it does the cloud must be complete
+                            record!(format!("pc[{ci}].finalize (first attempt)"), ci, Expect::Unspec, from, r);
+                            if first_failure.is_none() {
+                                first_failure = Some(calls.len() - 1);
+                            }
+                            from = opno(ctx);
+                            r = pw.finalize();
+                            exp = Expect::Unspec;
+                        }
+                        if record!(format!("pc[{ci}].finalize"), ci, exp, from, r) {
                             // partial limits are not written
                             if let Some(l) = &meta.intensity_limits {
                                 if !l.complete() {
